@@ -269,7 +269,7 @@ package annotations
 // (the Mapper's own representation invariant is assumed at its call sites: the
 // callees of the loop body that are unknown code do not reach Mapper internals)
 //@ func (*updater).buildBackendAuthHTTP
-//@   props C01 C07
+//@   props C01 C07 C09
 //@   requires d != nil && d.backend != nil && d.mapper != nil
 //@   assume-pre Mapper).GetConfig KeyConfig).Get
 //@   at call TrackNames#1 assert link: $arg1 == convtypes.ResourceSecret && $arg2 == secretName && $arg3 == convtypes.ResourceHABackend && $arg4 == d.backend.ID
